@@ -82,6 +82,8 @@ def run_property(prop: str, repo: str, tier: str, evidence_dir=None, quiet=False
     selftest = None
     if tier == "thorough":
         selftest = ST.matrix(prop, repo, jobs=int(os.environ.get("VERIF_JOBS", "16")))
+        # the filed seeded changes / behaviour-preserving refactorings of this property, applied to the current sources in memory
+        selftest["corpus"] = ST.corpus(prop, repo, jobs=int(os.environ.get("VERIF_JOBS", "16")))
 
     wall = time.time() - t0
     level_text = getattr(mod, "LEVEL_TEXT", "static structural rules over the AST / CFG / kind annotations of the current source tree")
@@ -107,6 +109,13 @@ def run_property(prop: str, repo: str, tier: str, evidence_dir=None, quiet=False
             if strict:
                 raise AnalysisError("self-test of the checker failed: " + "; ".join(selftest["broken"][:5]))
             out.append("  selftest (not strict): " + "; ".join(selftest["broken"][:5]))
+        cp = selftest.get("corpus")
+        if cp:
+            out.append(f"  corpus: {cp.get('summary', '')}")
+            if cp.get("broken"):
+                if strict:
+                    raise AnalysisError("filed seeded changes / refactorings not handled as recorded: " + "; ".join(cp["broken"][:5]))
+                out.append("  corpus (not strict): " + "; ".join(cp["broken"][:5]))
     if not quiet:
         try:
             print("\n".join(out), flush=True)
